@@ -141,3 +141,7 @@ def check(chk):
     except Exception:
         raise AnalysisError('AES block size constants not foldable')
     chk.judge(bs == 128 and bsb == 16 and bs == bsb * 8, 'C39.policy', (POL, '<module>', 0), 'AES block: 128 bits == 16 bytes (IV length)', 'block size constants inconsistent: %r bits, %r bytes' % (bs, bsb))
+
+    # the compiled decoder keeps the decrypted bytes in a C struct reused across the columns of a row: it must be filled in the iteration that reads it
+    chk.rule('C39.stale', 'compiled row parser: the buffer handed to from_binary was filled (decrypted) in the same iteration (shared with C07)')
+    chk.borrow('C07', {'C07.stale': 'C39.stale'}, 'a null in an encrypted column is decoded from the bytes of the previous encrypted column')
